@@ -45,6 +45,7 @@ var c18Kinds = []c18Kind{
 	{"gp2-src", "gp2", "src", "example.org/b/b.go", true, "", "example.org/b.B"},
 	{"gp2-pkgmod", "gp2", "pkg/mod", "golang.org/x/sys@v0.1.0/unix/u.go", true, "", "golang.org/x/sys/unix.U"},
 	{"gp3-src", "gp3", "src", "corp/c/c.go", true, "", "corp/c.C"},
+	{"gp1-src-stdlib-lookalike-tail", "gp1", "src", "example.com/q/fmt/print.go", true, "", "example.com/q/fmt.Print"},
 	{"m1-main", "m1", "", "main.go", true, "example.com/m1", "main.main"},
 	{"m1-pkg", "m1", "", "pkg/p.go", true, "example.com/m1", "example.com/m1/pkg.P"},
 	{"m1-pkg-deep", "m1", "", "pkg/deep/d.go", true, "example.com/m1", "example.com/m1/pkg/deep.D"},
@@ -65,25 +66,26 @@ var c18Kinds = []c18Kind{
 
 func c18Tree(root string) {
 	files := map[string]string{
-		"goroot/src/fmt/print.go":                          "package fmt\n",
-		"goroot/src/net/http/server.go":                    "package http\n",
-		"gp1/src/example.com/a/a.go":                       "package a\n",
-		"gp1/src/example.com/a/sub/s.go":                   "package sub\n",
-		"gp1/pkg/mod/github.com/u/dep@v1.0.0/d.go":         "package dep\n",
-		"gp1/pkg/mod/github.com/u/dep@v1.0.0/inner/i.go":   "package inner\n",
-		"gp2/src/example.org/b/b.go":                       "package b\n",
-		"gp2/pkg/mod/golang.org/x/sys@v0.1.0/unix/u.go":    "package unix\n",
-		"gp3/src/corp/c/c.go":                              "package c\n",
-		"m1/go.mod":                                        "module example.com/m1\n\ngo 1.20\n",
-		"m1/main.go":                                       "package main\n",
-		"m1/pkg/p.go":                                      "package pkg\n",
-		"m1/pkg/deep/d.go":                                 "package deep\n",
-		"deep/er/m2/go.mod":                                "module example.com/m2\r\n",
-		"deep/er/m2/x.go":                                  "package m2\n",
-		"run/main.go":                                      "package main\n",
-		"m1x/go.mod":                                       "module example.com/m1x\n",
-		"m1x/y.go":                                         "package m1x\n",
-		"m1x/lib/l.go":                                     "package lib\n",
+		"goroot/src/fmt/print.go":                        "package fmt\n",
+		"goroot/src/net/http/server.go":                  "package http\n",
+		"gp1/src/example.com/a/a.go":                     "package a\n",
+		"gp1/src/example.com/a/sub/s.go":                 "package sub\n",
+		"gp1/src/example.com/q/fmt/print.go":             "package fmt\n",
+		"gp1/pkg/mod/github.com/u/dep@v1.0.0/d.go":       "package dep\n",
+		"gp1/pkg/mod/github.com/u/dep@v1.0.0/inner/i.go": "package inner\n",
+		"gp2/src/example.org/b/b.go":                     "package b\n",
+		"gp2/pkg/mod/golang.org/x/sys@v0.1.0/unix/u.go":  "package unix\n",
+		"gp3/src/corp/c/c.go":                            "package c\n",
+		"m1/go.mod":                                      "module example.com/m1\n\ngo 1.20\n",
+		"m1/main.go":                                     "package main\n",
+		"m1/pkg/p.go":                                    "package pkg\n",
+		"m1/pkg/deep/d.go":                               "package deep\n",
+		"deep/er/m2/go.mod":                              "module example.com/m2\r\n",
+		"deep/er/m2/x.go":                                "package m2\n",
+		"run/main.go":                                    "package main\n",
+		"m1x/go.mod":                                     "module example.com/m1x\n",
+		"m1x/y.go":                                       "package m1x\n",
+		"m1x/lib/l.go":                                   "package lib\n",
 	}
 	for p, content := range files {
 		full := filepath.Join(root, p)
@@ -93,11 +95,11 @@ func c18Tree(root string) {
 }
 
 type c18Cfg struct {
-	goroot   bool
-	gopaths  []string
-	renamed  map[string]bool // goroot, gp1, gp2, gp3
-	frames   []int
-	creator  int // kind index of the "created by" frame, -1: none
+	goroot  bool
+	gopaths []string
+	renamed map[string]bool // goroot, gp1, gp2, gp3
+	frames  []int
+	creator int // kind index of the "created by" frame, -1: none
 }
 
 func (c c18Cfg) String() string {
@@ -149,11 +151,11 @@ func (c c18Cfg) remotePath(root string, k *c18Kind) string {
 }
 
 type c18Want struct {
-	loc      Location
-	local    string
-	rel      string
-	imp      string // "" = not checked
-	must     bool   // the statement demands this mapping (file exists locally / no detected root)
+	loc   Location
+	local string
+	rel   string
+	imp   string // "" = not checked
+	must  bool   // the statement demands this mapping (file exists locally / no detected root)
 }
 
 // expect computes the ground truth for every frame of the configuration.
@@ -403,6 +405,82 @@ func c18Check(root string, c c18Cfg, key string) *h.Viol {
 			}
 			if !ok {
 				return mk("root-not-prefix", fmt.Sprintf("frame %s is classed GoMod but no detected module root prefixes it", call.RemoteSrcPath))
+			}
+		}
+	}
+	if c.creator >= 0 {
+		return nil
+	}
+	// The same frames in a race report, where creation sections are whole stacks: the
+	// frames are the operation stack of both goroutines (they detect the roots exactly as
+	// above); the creation stack of the first goroutine is the same frames behind a frame
+	// that lies under no root, the second's is the frames in reverse order. Every frame of
+	// a creation stack must be mapped exactly like its twin in the operation stack.
+	var rb strings.Builder
+	frameLines := func(order []int) {
+		for _, ki := range order {
+			k := &c18Kinds[ki]
+			fmt.Fprintf(&rb, "  %s()\n      %s:%d +0x1\n", k.fn, c.remotePath(root, k), 10+ki)
+		}
+	}
+	rev := make([]int, len(c.frames))
+	for i, ki := range c.frames {
+		rev[len(rev)-1-i] = ki
+	}
+	rb.WriteString("==================\nWARNING: DATA RACE\nRead at 0x00c000014100 by goroutine 7:\n")
+	frameLines(c.frames)
+	rb.WriteString("\nPrevious write at 0x00c000014100 by goroutine 8:\n")
+	frameLines(c.frames)
+	rb.WriteString("\nGoroutine 7 (running) created at:\n  nowhere/dir.Spawn()\n      /nowhere/dir/spawn.go:5 +0x1\n")
+	frameLines(c.frames)
+	rb.WriteString("\nGoroutine 8 (finished) created at:\n")
+	frameLines(rev)
+	rb.WriteString("==================\n")
+	rin := []byte(rb.String())
+	rres := scanOnce(bytes.NewReader(rin), opts)
+	mkr := func(cat, msg string) *h.Viol {
+		v := &h.Viol{Fingerprint: "C18/race/" + cat, Summary: c.String() + " as a race report: " + msg, Key: key, Kind: "layout"}
+		v.SetInput([]byte(strings.ReplaceAll(string(rin), root, "$ROOT")))
+		return v
+	}
+	if rres.panicked != "" {
+		return mkr("panic:"+firstLine(rres.panicked), "ScanSnapshot panicked: "+firstLine(rres.panicked))
+	}
+	if rres.snap == nil || len(rres.snap.Goroutines) != 2 {
+		return mkr("parse", "the race report was not parsed into two goroutines")
+	}
+	same := func(a, b *Call) bool {
+		return a.Location == b.Location && a.LocalSrcPath == b.LocalSrcPath && a.RelSrcPath == b.RelSrcPath && a.ImportPath == b.ImportPath
+	}
+	for gi, g := range rres.snap.Goroutines {
+		if len(g.Stack.Calls) != len(c.frames) {
+			return mkr("parse", "operation stack not parsed")
+		}
+		for i := range c.frames {
+			// the operation stacks are mapped like the goroutine dump's stack
+			if !same(&g.Stack.Calls[i], &s.Goroutines[0].Stack.Calls[i]) {
+				return mkr("operation-frame-differs-from-dump:"+c18Kinds[c.frames[i]].name, fmt.Sprintf("goroutine %d frame %d (%s) is mapped differently than the same frame of a goroutine dump", gi, i, g.Stack.Calls[i].RemoteSrcPath))
+			}
+		}
+		want := len(c.frames)
+		off := 0
+		if gi == 0 {
+			want, off = want+1, 1
+		}
+		if len(g.CreatedBy.Calls) != want {
+			return mkr("parse", fmt.Sprintf("creation stack of goroutine %d has %d frames, want %d", gi, len(g.CreatedBy.Calls), want))
+		}
+		if gi == 0 && (g.CreatedBy.Calls[0].Location != LocationUnknown || g.CreatedBy.Calls[0].LocalSrcPath != "") {
+			return mkr("nowhere-frame-mapped", "the creation frame under no root was given a location")
+		}
+		for i := range c.frames {
+			twin := i
+			if gi == 1 {
+				twin = len(c.frames) - 1 - i
+			}
+			cf := &g.CreatedBy.Calls[off+i]
+			if !same(cf, &g.Stack.Calls[twin]) {
+				return mkr("creation-frame-differs-from-stack-twin:"+c18Kinds[c.frames[twin]].name, fmt.Sprintf("goroutine %d creation frame %d (%s): Location=%s local=%q rel=%q, the same frame in the operation stack has Location=%s local=%q rel=%q", gi, off+i, cf.RemoteSrcPath, cf.Location, cf.LocalSrcPath, cf.RelSrcPath, g.Stack.Calls[twin].Location, g.Stack.Calls[twin].LocalSrcPath, g.Stack.Calls[twin].RelSrcPath))
 			}
 		}
 	}
